@@ -190,6 +190,8 @@ def gen_case(lang, mode='seed', seed=0, switches=(), limits=None, data=None, tap
     boot.reset_case(seed=seed, rnd=rnd)
     st = _wrapped['gen']
     st.update(calls=0, max_depth=0, nest=0, max_nest=0, budget=budget)
+    if recorder is not None:
+        recorder.take()          # drop leftovers of a generation that Hypothesis aborted (overrun / stop)
     ctx = recorder.recording() if recorder is not None else contextlib.nullcontext()
     try:
         with ctx:
